@@ -67,6 +67,17 @@ def main():
             f.write(json.dumps(res, default=str) + "\n")
             f.flush()
             res = None
+            try:
+                from .session import _HOOK
+                if _HOOK is not None:
+                    _HOOK.release_all()
+            except Exception:
+                pass
+            try:
+                from .libstate import scrub_all_models
+                scrub_all_models()
+            except Exception:
+                pass
             gc.collect()
 
 
